@@ -65,24 +65,24 @@ func expectedRouting(w *World, f *SFile) (outAbs, pkgPath string) {
 	out := w.Opts.Output
 	pkg := w.Opts.Package
 	for _, p := range w.Opts.SchemaOut {
-		if p.K == f.ID && f.ID != "" {
+		if p.K == f.ID {
 			out = p.V
 		}
 	}
 	mapped, outMapped := false, false
 	for _, p := range w.Opts.SchemaOut {
-		if p.K == f.ID && f.ID != "" {
+		if p.K == f.ID {
 			mapped, outMapped = true, true
 		}
 	}
 	for _, p := range w.Opts.SchemaPkg {
-		if p.K == f.ID && f.ID != "" {
+		if p.K == f.ID {
 			pkg = p.V
 			mapped = true
 		}
 	}
 	for _, p := range w.Opts.SchemaRoot {
-		if p.K == f.ID && f.ID != "" {
+		if p.K == f.ID {
 			mapped = true
 		}
 	}
@@ -256,6 +256,25 @@ func (p c20) Gen(t *rapid.T, env *Env) (*Case, []*Out) {
 		cp.Opts.SchemaOut = nil
 		for _, pr := range w.Opts.SchemaOut {
 			cp.Opts.SchemaOut = append(cp.Opts.SchemaOut, Pair{pr.K, via(pr.V)})
+		}
+		w = &cp
+	}
+	if !clash3 && len(w.Opts.SchemaPkg) == 0 && len(w.Opts.SchemaOut) == 0 && len(w.Opts.SchemaRoot) == 0 && len(w.Files) >= 2 && w.Files[0].ID != "" && w.Files[1].ID != "" &&
+		rapid.IntRange(0, 5).Draw(t, "emptyidmapping") == 0 {
+		// one document has no $id and the EMPTY id is mapped to a package and file of its own; the other documents have
+		// ids that are not mapped (they go to the defaults). "" is an id like any other.
+		cp := *w
+		cp.Files = append([]*SFile{}, w.Files...)
+		k := rapid.IntRange(0, len(w.Files)-1).Draw(t, "idless")
+		nf := *w.Files[k]
+		nf.ID = ""
+		nf.Pkg = 9 // a package of its own: the world-feature computations (cross-package references) go by this number
+		nf.Doc = nf.Doc.Del("$id").Del("id")
+		cp.Files[k] = &nf
+		cp.Opts.SchemaPkg = []Pair{{"", "example.com/m/pke"}}
+		cp.Opts.SchemaOut = []Pair{{"", "out/pke/gen.go"}}
+		if cp.Opts.Output == "" || cp.Opts.Output == "-" {
+			cp.Opts.Output = "out/main/gen.go"
 		}
 		w = &cp
 	}
